@@ -47,13 +47,13 @@ theorem url_is_authority_plus_request_uri (u : URL) (h : Lemmas.C20Url.ProxyForm
   Lemmas.C20Url.urlString_proxyForm u h
 
 example : urlString { scheme := b "http", host := b "foo.com", path := b "/docs/annual report.pdf", rawQuery := b "q=1" }
-    = b "http://foo.com/docs/annual%20report.pdf?q=1" := by decide
-example : escapedPath { path := b "/a/b c", rawPath := b "/a%2Fb%20c" } = b "/a%2Fb%20c" := by decide
-example : escapedPath { path := b "/a/b", rawPath := b "/x" } = b "/a/b" := by decide      -- RawPath of another path: ignored
-example : requestURI { path := b "/foo", forceQuery := true } = b "/foo?" := by decide
-example : unescape (b "/caf%C3%A9") = some (b "/caf" ++ [195, 169]) := by decide
+    = b "http://foo.com/docs/annual%20report.pdf?q=1" := by decide +kernel
+example : escapedPath { path := b "/a/b c", rawPath := b "/a%2Fb%20c" } = b "/a%2Fb%20c" := by decide +kernel
+example : escapedPath { path := b "/a/b", rawPath := b "/x" } = b "/a/b" := by decide +kernel      -- RawPath of another path: ignored
+example : requestURI { path := b "/foo", forceQuery := true } = b "/foo?" := by decide +kernel
+example : unescape (b "/caf%C3%A9") = some (b "/caf" ++ [195, 169]) := by decide +kernel
 example : Lemmas.C20Url.ProxyForm { scheme := b "http", host := b "h", path := b "/x y" } :=
-  ⟨by decide, by decide, rfl, rfl, rfl, by decide⟩
+  ⟨by decide +kernel, by decide +kernel, rfl, rfl, rfl, by decide +kernel⟩
 
 /-! ## the event `ServeHTTP` builds -/
 
@@ -106,9 +106,9 @@ theorem event_request_id (cfg : Cfg) (r : Req) (t : Target) (id : Bytes) (ops : 
 example : ∃ e, serve {} { remoteAddr := b "1.2.3.4:5", host := b "foo.com", url := { path := b "/a/b", rawPath := b "/a%2Fb" } }
     (some { scheme := b "http", host := b "backend" }) [] (.response [103] 404 [13]) = .logged e ∧
     e.status = 404 ∧ e.size = 13 ∧ e.upstreamAddr = b "backend" ∧ urlString e.requestURL = b "http://foo.com/a%2Fb" ∧
-    requestURI e.upstreamURL = b "/a%2Fb" := ⟨_, rfl, by decide, by decide, by decide, by decide, by decide⟩
-example : serve {} { remoteAddr := b "1.2.3.4" } (some {}) [] (.response [] 200 []) = .badRemote := by decide
-example : splitHostPortOk (b "[::1]:80") = true ∧ splitHostPortOk (b "::1") = false ∧ splitHostPortOk (b "a:b:c") = false := by decide
+    requestURI e.upstreamURL = b "/a%2Fb" := ⟨_, rfl, by decide +kernel, by decide +kernel, by decide +kernel, by decide +kernel, by decide +kernel⟩
+example : serve {} { remoteAddr := b "1.2.3.4" } (some {}) [] (.response [] 200 []) = .badRemote := by decide +kernel
+example : splitHostPortOk (b "[::1]:80") = true ∧ splitHostPortOk (b "::1") = false ∧ splitHostPortOk (b "a:b:c") = false := by decide +kernel
 
 /-! ## header values that go through `i32toa` / `uint16base16` -/
 
@@ -124,8 +124,8 @@ is false for the code as it was, e.g. 3000000000 ↦ `max-age=-1294967296`. Kept
 `c20.serve`. -/
 example : stsHeader true { stsMaxAge := 3000000000, stsSubdomains := true } = some (.ok "max-age=2147483647; includeSubdomains".toList) := by
   decide
-example : stsHeader true { stsMaxAge := 31536000 } = some (.ok "max-age=31536000".toList) := by decide
-example : stsHeader false { stsMaxAge := 31536000 } = none := by decide
+example : stsHeader true { stsMaxAge := 31536000 } = some (.ok "max-age=31536000".toList) := by decide +kernel
+example : stsHeader false { stsMaxAge := 31536000 } = none := by decide +kernel
 
 /-- the TLS parameters of `Forwarded`: a name from the table for SSL 3.0 … TLS 1.2, otherwise `0x` + four hex
 digits (`Nat.toDigits 16`), for every uint16 version and cipher suite -/
@@ -136,8 +136,8 @@ theorem forwarded_tls_value (t : TLSState) (hv : t.version < 65536) (hc : t.ciph
       (if t.cipher ≠ 0 then "; tlscipher=".toList ++ Model.C20.Spec.hex4 t.cipher else [])) :=
   Lemmas.C20Serve.forwarded_tls_value t hv hc
 
-example : forwardedTLS { version := 0x0304, cipher := 0x1301 } = .ok "; tlsver=0x0304; tlscipher=0x1301".toList := by decide
-example : forwardedTLS { version := 0x0303, cipher := 0 } = .ok "; tlsver=tls12".toList := by decide
+example : forwardedTLS { version := 0x0304, cipher := 0x1301 } = .ok "; tlsver=0x0304; tlscipher=0x1301".toList := by decide +kernel
+example : forwardedTLS { version := 0x0303, cipher := 0 } = .ok "; tlsver=tls12".toList := by decide +kernel
 
 /-! ## request ids -/
 
